@@ -802,7 +802,9 @@ def _register_vector_gradient_rules() -> None:
             if left_index is not None and right_index is not None:
                 # wrt appears in both: x · x case or overlapping vectors
                 # ∂(x·x)/∂x_i = 2*x_i
-                if left is right or left.name == right.name:
+                # same vector = same variables in the same order (view names are
+                # not unique: x[0:4], x[::-1] and x[0:4:3] are all named "x[0:4]")
+                if left is right or left._variables == right._variables:
                     return _simplify_mul(Constant(2.0), wrt)
                 else:
                     # Different vectors with same variable name? Sum contributions
